@@ -199,6 +199,20 @@ def routing_history(rng, prof):
             g.disconnect(c)
         elif a == "tick":
             g.ops.append(op("tick", kind=rng.choice(prof.get("ticks", ["clients"])), dt=rng.choice(prof.get("dts", [0, 100]))))
+        elif a == "foreign_unsub":
+            # a client unsubscribes from a share filter it does not hold: same filter path as somebody's shared
+            # subscription, another group (or its own id in that group) - nobody else's subscription may be affected
+            held = [(cc, f) for cc in clients for f in g.subs.get(cc, []) if f and f[0] == "$share"]
+            live = [cc for cc in clients if g.k(cc)]
+            if held and live:
+                cc, f = rng.choice(held)
+                other = rng.choice(live)
+                grp = rng.choice(["g", "h", "zz"])
+                ff = ["$share", grp] + list(f[2:])
+                if not (other == cc and ff == f) and ff not in g.subs.get(other, []):
+                    k = g.k(other)
+                    g.ops.append(op("unsubscribe", k=k, pid=g.pid(k), filters=[dict(f=ff, qos=0, nl=False, rap=False, rh=0)]))
+                    g.publish(rng.choice(live))
         elif a == "dup_publish":
             # retransmission (DUP) of a QoS 2 PUBLISH whose PUBREL has not been sent yet
             cands = [o for o in g.ops if o["op"] == "publish" and o.get("qos") == 2 and g.conn.get(next((cc for cc, kk in g.conn.items() if kk == o["k"]), None)) == o["k"]
